@@ -486,22 +486,22 @@ theorem same_shape_values (c : LogQL.Ctx) (key key' : Bytes) (ms ms' : List LogQ
     byte strings, conditions `= != =~ !~` — every window, duration bound, limit and schema-version flag, the text is a
     segment list well formed for its leaves; dates are digits and `-` for every second, numbers digits. Hypothesis: the two
     table names are closed text. -/
-theorem tempo_search_closed (s : Tempo.Search) (x : Tempo.Idx) (tags : List Tempo.Tag) (hs : rawE s.tracesTable = true)
+theorem tempo_search_closed (s : TempoSegs.Search) (x : TempoSegs.Idx) (tags : List TempoSegs.Tag) (hs : rawE s.tracesTable = true)
     (hx : rawE x.table = true) :
-    safeSegs .normal (Tempo.searchSegs s (Tempo.idxOf x tags)) = true ∧
-    kinds (Tempo.searchText s x tags) = kinds (renderSegs ((Tempo.searchSegs s (Tempo.idxOf x tags)).map Seg.shape)) := by
-  have h := (Tempo.PE_searchSegs s x tags hs hx .normal rfl).1
+    safeSegs .normal (TempoSegs.searchSegs s (TempoSegs.idxOf x tags)) = true ∧
+    kinds (TempoSegs.searchText s x tags) = kinds (renderSegs ((TempoSegs.searchSegs s (TempoSegs.idxOf x tags)).map Seg.shape)) := by
+  have h := (TempoSegs.PE_searchSegs s x tags hs hx .normal rfl).1
   exact ⟨h, render_structure_invariant _ h⟩
 
 /-- **tempo_trace_closed / tempo_tag_values_closed.** Trace by id (`unhex(<id>)`: the id of the URL is a leaf: ANY bytes) and
     `/api/search/tag/{tag}/values` (the tag is a leaf) -/
 theorem tempo_trace_closed (table : String) (traceId : Bytes) (startNs endNs : Int) (ht : rawE (b table) = true) :
-    safeSegs .normal (segsSel (Tempo.traceSel table traceId startNs endNs)) = true :=
-  closed_fragments_partial _ (Tempo.wf_traceSel table traceId startNs endNs ht)
+    safeSegs .normal (segsSel (TempoSegs.traceSel table traceId startNs endNs)) = true :=
+  closed_fragments_partial _ (TempoSegs.wf_traceSel table traceId startNs endNs ht)
 
 theorem tempo_tag_values_closed (table : String) (tag : Bytes) (ht : rawE (b table) = true) :
-    safeSegs .normal (segsSel (Tempo.tagValuesSel table tag)) = true :=
-  closed_fragments_partial _ (Tempo.wf_tagValuesSel table tag ht)
+    safeSegs .normal (segsSel (TempoSegs.tagValuesSel table tag)) = true :=
+  closed_fragments_partial _ (TempoSegs.wf_tagValuesSel table tag ht)
 
 /-! ## Every place where SQL text is written without an escaping constructor -/
 
@@ -728,9 +728,9 @@ private theorem exNames' : LogQL.MetricNamesOK exMetric' := by
     unfold LogQL.LabelClass; decide +kernel
 example := same_shape_metric exMCtx exMetric exMetric' ⟨exTablesCluster, by decide +kernel⟩ exNames exNames' (by decide +kernel)
 -- Tempo: hostile tag names / values under all four conditions, every optional clause present
-private def exIdx : Tempo.Idx := ⟨b "`qryn`.tempo_traces_attrs_gin", 1700000000000000000, 1700003600000000000, 1000000, 10000000000, 20, true⟩
-private def exSearch : Tempo.Search := ⟨b "tempo_traces", 20, 1700000000000000000, 1700003600000000000, 1000000, 10000000000⟩
-private def exTags : List Tempo.Tag := [⟨[39, 45, 45], .eq, [92, 39]⟩, ⟨[97], .neq, [39, 41, 59]⟩, ⟨[0], .re, [42, 47]⟩, ⟨[], .nre, [39]⟩]
+private def exIdx : TempoSegs.Idx := ⟨b "`qryn`.tempo_traces_attrs_gin", 1700000000000000000, 1700003600000000000, 1000000, 10000000000, 20, true⟩
+private def exSearch : TempoSegs.Search := ⟨b "tempo_traces", 20, 1700000000000000000, 1700003600000000000, 1000000, 10000000000⟩
+private def exTags : List TempoSegs.Tag := [⟨[39, 45, 45], .eq, [92, 39]⟩, ⟨[97], .neq, [39, 41, 59]⟩, ⟨[0], .re, [42, 47]⟩, ⟨[], .nre, [39]⟩]
 example := tempo_search_closed exSearch exIdx exTags (by decide +kernel) (by decide +kernel)
 example := tempo_search_closed exSearch exIdx [] (by decide +kernel) (by decide +kernel)
 example := tempo_trace_closed "tempo_traces" [39, 41, 32, 45, 45] 0 5 (by decide +kernel)
